@@ -126,6 +126,17 @@ def encFmap (h : FmapHdr) (fonts : List FontSpec) (unused : List SlotSpec) (htai
   let bd := bpre ++ (encFontNames fonts ++ btail)
   encS .be 4 (hd.length : Int) ++ (encS .be 4 (bd.length : Int) ++ (hd ++ bd))
 
+/-- displacements and name lengths fit their signed 32-bit fields -/
+def FontsFit : List FontSpec → Nat → Prop
+  | [], _ => True
+  | f :: fs, off => off < 2147483648 ∧ f.name.length < 2147483648 ∧ FontsFit fs (off + 4 + f.name.length + f.pad.length)
+
+instance FontsFit.dec : (fs : List FontSpec) → (off : Nat) → Decidable (FontsFit fs off)
+  | [], _ => isTrue trivial
+  | f :: fs, off =>
+    have := FontsFit.dec fs (off + 4 + f.name.length + f.pad.length)
+    by unfold FontsFit; infer_instance
+
 /-- decode every used font's name, first failure wins -/
 def decodeFonts (dec : Dec) : List FontSpec → R (List FontInfo)
   | [] => .ok []
